@@ -17,6 +17,7 @@ mod p_render;
 mod p_env;
 mod p_cfgcli;
 mod p_state;
+mod p_divider;
 
 use std::io::{BufWriter, Write};
 
@@ -46,6 +47,8 @@ fn main() {
         "envrun" => p_env::main(&args[1..], &mut w),
         "cfgcli" => p_cfgcli::main(&args[1..], &mut w),
         "state" => p_state::main(&args[1..], &mut w),
+        "divider" => p_divider::main(&args[1..], &mut w),
+        "fake-shell" => p_divider::fake_shell(),
         "consts" => p_consts::main(&args[1..], &mut w),
         x => { eprintln!("unknown subcommand {}", x); std::process::exit(2); }
     }
